@@ -19,7 +19,7 @@
 // `for i[, x] := range <slice>`, `for _, v := range <map>` (order = a parameter `walk`), if / else,
 // `switch` on a value with constant case lists, early return, `continue`, `panic(lit)`, `append`, `len`,
 // `make`, `slices.DeleteFunc(xs, func(t T) bool { return <pure> })`, `sort.Sort(xs)` for a slice type whose
-// `Less(i, j)` is `return s[i].F < s[j].F`, `fmt.Errorf(lit, …)` (the error is its format string),
+// `Less(i, j)` is `return s[i].F < s[j].F`, `fmt.Errorf(lit, …)` (the error is its format string, a named constant per site),
 // `log.Printf(…)` (dropped: it writes to stderr only), short-circuit `&&` / `||`, calls of other translated
 // functions, of function-valued parameters and of `getPrimary`.  A slice parameter that the function
 // writes into is returned in front of the function's own results.
@@ -89,6 +89,7 @@ type gg struct {
 	out    strings.Builder
 	cur    *gFn
 	wb     map[string]gWriteBack // range variable -> (slice it copies from, hidden index)
+	errs   []string              // definitions of the current function's error messages
 	n      int
 }
 
@@ -437,7 +438,10 @@ func (t *gg) call(x *ast.CallExpr, want string) (string, string) {
 			// the error is identified by its format string (a literal or a concatenation of literals); the
 			// arguments only fill in the message
 			if lit := gConcatLit(x.Args[0]); lit != "" {
-				return "(some " + lit + ")", gtErr
+				// a named constant per error site, so that obligations do not depend on the wording
+				nm := fmt.Sprintf("%s_err%d", strings.ReplaceAll(t.cur.lean, ".", "_"), len(t.errs)+1)
+				t.errs = append(t.errs, "def "+nm+" : String := "+lit+"\n")
+				return "(some " + nm + ")", gtErr
 			}
 		}
 	case "slices.DeleteFunc":
@@ -1387,6 +1391,7 @@ func runGenumGen(repo, out string) {
 		t.cur = fn
 		t.env = nil
 		t.wb = nil
+		t.errs = nil
 		t.push()
 		t.out.Reset()
 		var rts []string
@@ -1447,6 +1452,9 @@ func runGenumGen(repo, out string) {
 			sig += " (" + name(p.name) + " : " + p.ty + ")"
 		}
 		sig += " : Go.M (" + rt + ") := do"
+		for _, e := range t.errs {
+			b.WriteString(e)
+		}
 		fmt.Fprintf(&b, "/-- `%s` -/\n%s\n%s\n", src(&ast.FuncDecl{Recv: fd.Recv, Name: fd.Name, Type: fd.Type}), sig, body)
 		count++
 	}
